@@ -74,8 +74,23 @@ for cname, val in (('ifvmode', 1), ('ifhmode', 0), ('ifinner', 1)):
     P.fn(FP + cname + '.invoke', name=cname + '.invoke', params=dict(self=cname, tex='TeX'), returns='list[Tok]',
          requires=['ghost("ncalls") == 0'], ensures=ONE + ['ghost("branch") == %d' % val],
          allocates=True, skip_frame=True, locals={'[]': 'list[Tok]'}, calls={'tex.processIfContent': 'TeX.processIfContent/bool'})
+# \iftrue / \iffalse (and the switches \newif derives from them): always the true text / always the else part
+for cname, val in (('iftrue', 0), ('iffalse', 1)):
+    P.cls(cname, bases=['IfCommand'])
+    P.fn(FP + cname + '.invoke', name=cname + '.invoke', params=dict(self=cname, tex='TeX'), returns='list[Tok]',
+         requires=['ghost("ncalls") == 0'], ensures=ONE + ['ghost("branch") == %d' % val, 'len(result) == 0'],
+         allocates=True, skip_frame=True, locals={'[]': 'list[Tok]'}, calls={'tex.processIfContent': 'TeX.processIfContent/bool'})
+# \ifcat: the true text iff the two tokens read have the same category code
+P.cls('CatTok', fields=dict(catcode='int'))
+P.cls('ifcat', fields=dict(attributes='dict[str,CatTok]'))
+P.fn('ifcat.parse', params=dict(self='ifcat', tex='TeX'), returns='none', trusted=True, notes='Macro.parse binds a, b to the two tokens read (C05)')
+P.fn(FP + 'ifcat.invoke', name='ifcat.invoke', params=dict(self='ifcat', tex='TeX'), returns='list[Tok]',
+     requires=['ghost("ncalls") == 0', '"a" in self.attributes', '"b" in self.attributes'],
+     ensures=ONE + ['ghost("branch") == (0 if self.attributes["a"].catcode == self.attributes["b"].catcode else 1)', 'len(result) == 0'],
+     allocates=True, skip_frame=True, locals={'[]': 'list[Tok]'},
+     calls={'self.parse': 'ifcat.parse', 'tex.processIfContent': 'TeX.processIfContent/bool'})
 P.unverified_surrounding("functional selection of processIfContent (which tokens are pushed back) against TeX's skipping machine: "
-                         "bounded native comparison (bounded/ifcontent); if / ifx / ifcat token comparison and newif switches: not under contract")
+                         "bounded native comparison (bounded/ifcontent); if / ifx token comparison (Token.__eq__ hook): not under contract")
 
 # ---------------------------------------------------------------------------------------------- which tokens are pushed back
 # TeX's skipping machine, stated over a ghost classification K of the stream tokens (0 other, 1 \if..., 2 \fi, 3 \else, 4 \or,
